@@ -847,17 +847,31 @@ def run_fault(ctx):
     def rec(name, make):
         recs.append((name, make))
 
-    def bnrec(name, fn, vals, nout=1):
+    def bnv(v):
+        return R.bn_put(R.bn_new(max(1, (abs(v).bit_length() + R.DIG - 1) // R.DIG)), v)
+
+    def bnrec(name, fn, vals, nout=1, outcap=None, inplace=False):
+        """outcap: capacity (digits) of the separate outputs - a small one forces bn_grow to enlarge the object inside the
+        call; inplace: the first input is also the output and has exactly the capacity its value needs"""
         def make():
-            outs = [R.bn_new() for _ in range(nout)]
-            ins = [R.bn(v) if not isinstance(v, tuple) else v[0] for v in vals]
-            args = outs + ins
+            if inplace:
+                first = bnv(vals[0])
+                ins = [first] + [bnv(v) if not isinstance(v, tuple) else v[0] for v in vals[1:]]
+                outs = [first]
+                args = [first] + ins
+            else:
+                outs = [R.bn_new(outcap) for _ in range(nout)]
+                ins = [bnv(v) if not isinstance(v, tuple) else v[0] for v in vals]
+                args = outs + ins
 
             def read():
                 return [R.bn_val(o) for o in outs]
+            # objects the caller still owns after a failed call: (pointer, value it must still hold or None for outputs)
+            read.bn_objs = [(o, None) for o in outs] + [(i, v) for i, v in zip(ins, vals)
+                                                        if not isinstance(v, tuple) and not (inplace and i == ins[0])]
 
             def clean():
-                for o in outs + [i for i, v in zip(ins, vals) if not isinstance(v, tuple)]:
+                for o in ([] if inplace else outs) + [i for i, v in zip(ins, vals) if not isinstance(v, tuple)]:
                     R.bn_free(o)
             return args, read, clean
         rec(name, (fn, make))
@@ -884,6 +898,22 @@ def run_fault(ctx):
     bnrec("bn_lsh", "bn_lsh", [x1, (777,)])
     bnrec("bn_add", "bn_add", [x1, -x2])
     bnrec("bn_mul_dig", "bn_mul_dig", [x1, (12345,)])
+    # the same kind of calls with objects that have to be ENLARGED inside the call (bn_grow -> realloc): the dynamic
+    # allocation is padded to multiples of RLC_BN_SIZE digits, so the results must be longer than that
+    capbits = R.BN_SIZE * R.DIG
+    y1 = rng.getrandbits(capbits - 70) | (1 << (capbits - 71))
+    y2 = rng.getrandbits(capbits - 200) | 1
+    bnrec("bn_add|grow-out", "bn_add", [y1 << 200, y2], outcap=1)
+    bnrec("bn_mul_comba|grow-out", "bn_mul_comba", [y1, y2], outcap=1)
+    bnrec("bn_mul_basic|grow-out", "bn_mul_basic", [y1, y2], outcap=1)
+    bnrec("bn_copy|grow-out", "bn_copy", [y1 << 200], outcap=1)
+    bnrec("bn_lsh|grow-out", "bn_lsh", [y1, (777,)], outcap=2)
+    bnrec("bn_div_rem|grow-out", "bn_div_rem", [(y1 * y2) << 300, y2 + 2], nout=2, outcap=1)
+    bnrec("bn_lsh|grow-inplace", "bn_lsh", [y1, (777,)], inplace=True)
+    bnrec("bn_add|grow-inplace", "bn_add", [y2, y1 << 300], inplace=True)
+    bnrec("bn_mul_dig|grow-inplace", "bn_mul_dig", [(1 << capbits) - 1, (0xFFFFFFFF,)], inplace=True)
+    bnrec("bn_sqr_comba|grow-inplace", "bn_sqr_comba", [y1], inplace=True)
+    bnrec("bn_sqr_basic|grow-inplace", "bn_sqr_basic", [y1], inplace=True)
 
     def fprec(name, fn, xs):
         def make():
@@ -1067,6 +1097,19 @@ def run_fault(ctx):
                     total_err += 1
                     ctx.check(True)
                     ctx.check(d <= d_ok, key + "|leak-on-error-path", {"fail_allocation": i, "heap_growth_bytes": d, "successful_run": d_ok})
+                    # the caller's objects survive a reported failure: still valid objects (inputs unchanged), and usable
+                    for o, val in getattr(read, "bn_objs", []):
+                        dp = R.bn_dp(o)
+                        al, us = R.rd_sz(o + R.bn_off_alloc), R.rd_sz(o + R.bn_off_used)
+                        sane = bool(dp) and us <= al
+                        ctx.check(sane, key + "|object-destroyed-by-failed-call", {"fail_allocation": i, "dp": dp, "alloc": al, "used": us})
+                        if sane:
+                            ctx.check(not R.call("bn_cmp_abs", o, o).caught, key + "|object-unusable-after-failed-call", {"fail_allocation": i})
+                            if val is not None:
+                                ctx.check(R.bn_val(o) == val, key + "|input-changed-by-failed-call", {"fail_allocation": i})
+                        else:
+                            # do not hand a broken object to bn_clean
+                            ctypes.memset(o, 0, R.bn_sz)
                 else:
                     got = read()
                     if fired:
